@@ -32,6 +32,7 @@ type Exec struct {
 	strLits     map[string]Term
 	noOv        map[string]bool
 	curCase     string
+	callArgOrd  map[int]int // per assert-before clause: call sites met so far
 	extraHavoc  []types.Object
 	visited     types.Object
 	rawVars     map[types.Object]bool
@@ -196,6 +197,13 @@ func (x *Exec) globalVar(st *State, o *types.Var) Value {
 func (x *Exec) selector(st *State, e *ast.SelectorExpr) Value {
 	if sel, ok := x.info.Selections[e]; ok {
 		if sel.Kind() != types.FieldVal {
+			// a method value used as a function value: opaque; a callee that is
+			// handed one may run it, so the heap is forgotten after that call
+			if sg, ok := x.typeOf(e).(*types.Signature); ok {
+				x.expr(st, e.X)
+				x.vc.n++
+				return Value{Ty: x.typeOf(e), Fn: &Closure{Sym: fmt.Sprintf("fn!mv%d", x.vc.n), Sig: sg, Opaque: true}}
+			}
 			x.unsup(e.Pos(), "method value %s", types.ExprString(e))
 		}
 		if len(sel.Index()) != 1 {
